@@ -3,7 +3,7 @@ prop("C14",
      assumptions=["stacks never exceed 64 pieces (documented representation limit)",
                   "symmetries_spec: the hashes of the (at most eight) distinct images of the position do not collide (explicit NoCollision hypothesis)"])
 prop("C15",
-     rule="legal games from the start biased to stay or become self-symmetric (mirror debts, most-symmetric continuation), sizes 3..8, with slides; per game: canonical form, double application, images under the eight maps, a prefix, and the property clauses checked on the real code (canonchk); malformed: an illegal/garbled move inside a game, sizes outside 3..8, empty game; exhaustive: all legal games of <= 2 plies on 3x3/4x4 and 3 plies on 3x3 (quick), <= 4 plies on 3x3/4x4 and <= 3 on 5x5 (thorough). Every distinct op line counts",
+     rule="legal games from the start biased to stay or become self-symmetric (mirror debts, self-mirror moves, most-symmetric continuation), sizes 3..8, with slides; per game: canonical form, double application, images under the eight maps, a prefix, and the property clauses checked on the real code (canonchk); malformed: an illegal/garbled move inside a game, sizes outside 3..8, empty game; exhaustive: all legal games of <= 2 plies on 3x3/4x4 and 3 plies on 3x3 (quick), <= 4 plies on 3x3/4x4 and <= 3 on 5x5 (thorough). Every distinct op line counts",
      assumptions=["no collision among the hashes of the eight replayed boards of a game (explicit NoCollision hypothesis of the theorems)"])
 # The opening-book part of C04: its ops/generator live here; ./check C04 must list generator "C04book".
 if "C04" in PROPS:
